@@ -38,6 +38,9 @@ TOPO = {
     # an exactly affine cell (unit square) next to a trapezoid: Newton converges in one step on the first only
     'quad2mix': ('MeshQuad1', [[0.0, 1.0, 1.0, 0.0, 2.25, 1.875], [0.0, 0.0, 1.0, 1.0, -0.125, 1.3125]],
                  [[0, 1], [1, 4], [2, 5], [3, 2]]),
+    # three quadrilaterals in a row, the LAST cell uses the lowest vertex numbers (cell index 2 is also a vertex index of an edge)
+    'quad3row': ('MeshQuad1', [[0.0, 1.0, 1.09375, 0.0625, 2.0625, 2.125, 3.0, 3.15625], [0.0, 0.0625, 1.0, 0.9375, -0.09375, 1.09375, 0.03125, 0.96875]],
+                 [[1, 4, 0], [4, 6, 1], [5, 7, 2], [2, 5, 3]]),
     'tet1': ('MeshTet1', [[0.0, 1.0, 0.125, 0.09375], [0.0, 0.0625, 1.0, 0.15625], [0.0, 0.03125, 0.09375, 1.0]],
              [[0], [1], [2], [3]]),
     'tet2': ('MeshTet1', [[0.0, 1.0, 0.125, 0.09375, 0.90625], [0.0, 0.0625, 1.0, 0.15625, 0.84375],
